@@ -105,6 +105,7 @@ pub fn run(cfg: &RunCfg) -> Ctx {
     all.merge(par_cases(cfg, "client", cfg.n(12_000, 16 * 400_000), || (), |_, rng, ctx, i| client_case(rng, ctx, i)));
     all.merge(par_cases(cfg, "enclist", cfg.n(3_000, 200_000), || (), |_, rng, ctx, _| enclist_case(rng, ctx)));
     all.floor("list.pop_left_something", 20);
+    all.floor("cli.caller_supplied_negotiation_headers", 20);
     let pairs: Vec<String> = all.counters.keys().filter(|k| k.starts_with("cfgpair.")).cloned().collect();
     for k in &pairs {
         all.counters.remove(k);
@@ -487,7 +488,18 @@ fn client_case(rng: &mut Rng, ctx: &mut Ctx, _idx: u64) {
     let mut client = if rng.bool() { client.clone() } else { client };
     let nreq = if matches!(shape, Shape::ClientStream | Shape::Bidi) { rng.urange(0, 3) } else { 1 };
     let req_msgs: Vec<Msg> = (0..nreq).map(|i| Msg { data: rng.payload_of(&[0usize, 30, 500]), seq: i as u64 + 1, tag: String::new() }).collect();
-    let spec = CallSpec { id: "cli".into(), shape, req_msgs: req_msgs.clone(), req_meta: vec![], req_pend: vec![], req_gaps_ms: vec![], timeout: None, pingpong: None };
+    // metadata copied over from another call (a proxying service) may carry the two negotiation
+    // headers: what this client announces is still its own configuration
+    let mut req_meta: crate::gen::MetaSpec = vec![];
+    if send.is_some() && rng.chance(1, 4) {
+        req_meta.push(("grpc-encoding".into(), crate::gen::MVal::Ascii(rng.pick(&["identity", "gzip", "deflate", "zstd"]).to_string())));
+        ctx.count("cli.caller_supplied_negotiation_headers");
+    }
+    if !acc.is_empty() && rng.chance(1, 4) {
+        req_meta.push(("grpc-accept-encoding".into(), crate::gen::MVal::Ascii(rng.pick(&["identity", "zstd,deflate", "gzip", "br"]).to_string())));
+        ctx.count("cli.caller_supplied_negotiation_headers");
+    }
+    let spec = CallSpec { id: "cli".into(), shape, req_msgs: req_msgs.clone(), req_meta, req_pend: vec![], req_gaps_ms: vec![], timeout: None, pingpong: None };
     let mut ex = Exec::new();
     let view = match ex.block_on(100_000, do_call(&mut client, &spec, None)) {
         Out::Done(v) => v,
